@@ -994,7 +994,7 @@ fn variants(cx: &mut Ctx, rng: &mut Rng, kind: Kind, text: &str, stream: &str, c
         cx.add(kind, &t, stream, 0, Some(&ce), true, merge(&base, json!({"variant": "trivia-lone-cr"})));
     }
     // leading | and &
-    let (t2, ch) = add_leading_separators(rng, &toks);
+    let (t2, ch) = if kind == Kind::Ts { add_leading_separators(rng, &toks) } else { (vec![], false) };
     if ch {
         let tv = Trivia { heavy: 2, lone_cr: false, bom: false, comments: false, crlf: false };
         let t = render_trivia(rng, &t2, &tv);
